@@ -126,3 +126,16 @@ static inline std::string typedObs(JsonVariant v, const JsonDocument* asDoc) {
   if (asDoc && base == "n" && (!asDoc->isNull() || asDoc->size() != 0 || asDoc->nesting() != 0)) return "document-null-observers";
   return "";
 }
+
+// the canonical dump of a whole document, with the typed observers checked on its root and on the root's children
+static inline std::string dumpTyped(JsonDocument& doc) {
+  std::string d = dump(doc.as<JsonVariantConst>());
+  std::string t = typedObs(doc.as<JsonVariant>(), &doc);
+  if (t.empty()) {
+    JsonVariant root = doc.as<JsonVariant>();
+    size_t n = 0;
+    if (root.is<JsonArray>()) { for (JsonVariant e : root.as<JsonArray>()) { if (n++ >= 4 || !t.empty()) break; t = typedObs(e, nullptr); } }
+    else if (root.is<JsonObject>()) { for (JsonPair kv : root.as<JsonObject>()) { if (n++ >= 4 || !t.empty()) break; t = typedObs(kv.value(), nullptr); } }
+  }
+  return t.empty() ? d : d + "!TYPED:" + t;
+}
